@@ -751,6 +751,9 @@ class Fxp():
             if _val.dtype.kind == 'f' and all(isinstance(v, int) for v in np.array(val, dtype=object).flat):
                 # python integers beyond the 64 bits range mixed with smaller ones: numpy would convert them to float
                 _val = np.array(val, dtype=object)
+            elif _val.dtype.kind in 'iuf' and _val.dtype.itemsize < 8:
+                # NumPy scalars of a narrow type inside the container: calculate in 64 bits, as for narrow ndarrays
+                _val = _val.astype(np.float64 if _val.dtype.kind == 'f' else np.int64)
             val = _val
         else:
             val = np.array(val)
